@@ -196,6 +196,26 @@ def insitu(ctx, n):
             a = numpy.array([vals[int(rng.integers(0, k))] for _ in range(rows * 2)], dtype=numpy.int64)
             a2 = a.reshape(rows, 2)
             idx = dense_to_index(a2, int(a2[0, 0]))
+            try:
+                insitu_one(ctx, rng, i, k, idx, a2, vals, signed, io_)
+            except OverflowError as e:
+                # a value that does not fit the dtype the library chose for it
+                ctx.violation("insitu:overflow", "the dtype chosen by the library cannot hold a value it must store: %s" % e,
+                              {"a": a2, "values": vals})
+            except Exception:
+                # anything else is another property's business; the calls made so far were judged
+                ctx.count("insitu_workload_raised(not judged here)")
+            if ctx.full():
+                break
+        ctx.sample({"insitu_values": vals, "signed": bool(signed)})
+    finally:
+        patch.undo()
+    ctx.extra["insitu_wrapper_calls"] = patch.calls
+
+
+def insitu_one(ctx, rng, i, k, idx, a2, vals, signed, io_):
+    if True:
+        if True:
             out = idx.to_array()                       # default dtype -> fit_dtype
             if not numpy.array_equal(out.astype(object), a2.astype(object)):
                 ctx.violation("insitu:to_array-wrapped", "to_array() default dtype %s lost values" % out.dtype,
@@ -226,9 +246,3 @@ def insitu(ctx, n):
                     ctx.violation("insitu:indx-coordinate-wrapped",
                                   "INDX coordinate word too narrow: saved keys %r common %r, loaded keys %r common %r"
                                   % (sorted(ent)[:4], common, sorted(lkeys)[:4], lcommon), {"entries": sorted(ent), "common": common})
-            if ctx.full():
-                break
-        ctx.sample({"insitu_values": vals, "signed": bool(signed)})
-    finally:
-        patch.undo()
-    ctx.extra["insitu_wrapper_calls"] = patch.calls
